@@ -9,11 +9,11 @@ CLAIMED = {
    tech="deterministic simulation: seeded gate scheduler over real threads + reference-model read-back"),
 }
 CLAIMED["C13"] = dict(cat="exploration",
-   text="Seeded simulation: the same backup (and, in another batch kind, the same prune) is executed R times from scratch under different gate-release policies (FIFO, random, starve-one-role, PCT), pariter pool sizes 1-3, pack-size limits from one blob per pack upward and compression settings; the snapshot tree id and the set of reachable (type,id) blobs must agree across executions, every execution must terminate (no-progress detector), and an independent decoder checks that every blob of every stored pack is indexed and every referenced blob is indexed in a live pack.",
+   text="Seeded simulation: the same backup (and, in other batch kinds, the same prune or the same copy into a fresh repository with another key) is executed R times from scratch under different gate-release policies (FIFO, random, starve-one-role, PCT), pariter pool sizes 1-3, pack-size limits from one blob per pack upward and compression settings; the snapshot tree id and the set of reachable (type,id) blobs must agree across executions, every execution must terminate (no-progress detector), and an independent decoder checks that every blob of every stored pack is indexed and every referenced blob is indexed in a live pack.",
    ref="5 C13", note="Interleavings are explored at storage/source-call granularity plus one hook before a written pack is indexed; inside a step the threads run FIFO-serialised. Trusted: the simulator's own pack/index decoder.",
    tech="deterministic simulation: same command re-executed under many seeded schedules, differential oracle + independent store audit")
 CLAIMED["C03"] = dict(cat="fault_enumeration",
-   text="For each command kind (backup first/next, forget, prune mark/instant/delete-marked, repair index +/- read-all, repair snapshots, rewrite+forget, merge, config change + key add, copy into) on a generated pre-state: one execution under a seeded gate schedule records the write/remove log; EVERY crash prefix of that log is opened with a fresh handle and every visible snapshot is read completely (old ones compared with their model); then single storage-op failures (no effect / lost acknowledgement) are injected at up to 12/24 positions under the same schedule: the command must return Err, never Ok, panic or hang, and the resulting states must satisfy the same oracle. Exhaustive over prefixes of each explored log; sampled over inputs, schedules and configs.",
+   text="For each command kind (backup first/next, forget of one/several snapshots, prune mark/instant/delete-marked/repack-all, repair index +/- read-all, repair snapshots, rewrite of trees or of metadata + forget, merge, config change + key add, password change (add key, delete old key; some password must open the repository at every prefix), copy into; prune / instant prune / backup started on the state an interrupted earlier run of the same command left behind) on a generated pre-state: one execution under a seeded gate schedule records the write/remove log; EVERY crash prefix of that log is opened with a fresh handle and every visible snapshot is read completely (old ones compared with their model); then single storage-op failures (no effect / lost acknowledgement) are injected at up to 12/24 positions under the same schedule: the command must return Err, never Ok, panic or hang, and the resulting states must satisfy the same oracle. Exhaustive over prefixes of each explored log; sampled over inputs, schedules and configs.",
    ref="5 C03", note="Storage ops are atomic in SimStore; the log is one observed linearisation per run of the concurrent writers (different schedules give different ones). instant-delete+early-delete-index and hot/cold are excluded as the property says.",
    tech="deterministic simulation: op-log crash-prefix enumeration + single-fault re-execution under the recorded schedule")
 CLAIMED["C02"] = dict(cat="exploration",
@@ -45,7 +45,7 @@ CLAIMED["C11"] = dict(cat="exploration",
    ref="5 C11", note="The generator enforces the premise (no content change without mtime/ctime change). Edit scripts include type changes file<->dir<->symlink, renames, touches.",
    tech="deterministic simulation: differential execution (parent-based vs forced) on forked store states + source open log")
 CLAIMED["C12"] = dict(cat="exploration",
-   text="Seeded simulation, one command kind per run on repositories holding 2-4 snapshots of an evolving source: copy into a destination with other key/version/compression/pack sizes/chunker that is empty or already holds part of the snapshots (copied snapshots read back equal to their source models, destination check clean); merge under last_modified_node or its reverse against a reference merge on the models; rewrite with exclude sets from a plain grammar against the model minus matches (forget on/off); repair_snapshots on undamaged repositories (no write) and after losing a data or tree pack (every file kept under its own name has its original content). Part of the commands run under seeded gate schedules.",
+   text="Seeded simulation, one command kind per run on repositories holding 2-4 snapshots of an evolving source: copy into a destination with other key/version/compression/pack sizes/chunker that is empty or already holds part of the snapshots (copied snapshots read back equal to their source models, destination check clean); merge under last_modified_node or its reverse against a reference merge on the models; rewrite with exclude sets from a plain grammar (extension, basename, anchored path; half of the runs with two directories of identical subtrees, i.e. one tree blob under two paths, and an exclude anchored inside one) against the model minus matches (forget on/off); repair_snapshots on undamaged repositories (no write) and after losing a data or tree pack (every file kept under its own name has its original content). Part of the commands run under seeded gate schedules.",
    ref="5 C12", note="Plain ASCII names in this scenario; merge orderings that tie on different entries are skipped; repair follows the documented order (repair index first).",
    tech="deterministic simulation: reference-model algebra (merge / exclude / repair) vs read-back on generated repositories")
 CLAIMED["C15"] = dict(cat="exploration",
@@ -53,7 +53,7 @@ CLAIMED["C15"] = dict(cat="exploration",
    ref="5 C15", note="An overwrite with byte-identical content (the same pack produced twice) is not a replacement. delete_key is allowed: key files are not in the property's list.",
    tech="deterministic simulation: random programs of public operations with an op-log oracle on the storage seam")
 CLAIMED["C16"] = dict(cat="fault_enumeration",
-   text="Seeded histories (backup, forget, repacking prune, config change, key add; partly under gate schedules) on a hot/cold pair of SimStores under the library's own HotColdBackend, with a single-store twin fed the same history. The combined hot+cold mutation log is replayed op by op and the invariant (every key/snapshot/index/tree-pack file listed by cold is in hot with identical bytes; no data pack in hot) is checked after EVERY op, i.e. at every crash prefix; results are compared with the twin; restore, repacking prune and repair_index run against a cold store that rejects un-warmed pack reads and must succeed with every cold pack read preceded by its warm-up; hot files (a subset or all) are removed and the hot/cold repair must restore the invariant; one storage op on either store fails during a backup: Err, invariant intact.",
+   text="Seeded histories (backup, forget, repacking prune, config change, key add, key removal, copy of a snapshot from another repository into the pair; partly under gate schedules) on a hot/cold pair of SimStores under the library's own HotColdBackend, with a single-store twin fed the same history. The combined hot+cold mutation log is replayed op by op and the invariant (every key/snapshot/index/tree-pack file listed by cold is in hot with identical bytes; no data pack in hot) is checked after EVERY op, i.e. at every crash prefix; results are compared with the twin; restore, repacking prune and repair_index run against a cold store that rejects un-warmed pack reads and must succeed with every cold pack read preceded by its warm-up; hot files (a subset or all) are removed and the hot/cold repair must restore the invariant; one storage op on either store fails during a backup: Err, invariant intact.",
    ref="5 C16", note="Config is exempt from byte identity (is_hot). After the hot/cold repair the tree-pack clause is asserted for packs known to the index. Equivalence read-back uses non-rejecting copies of the stores.",
    tech="deterministic simulation: per-op invariant over the combined op log of two simulated stores + twin-world equivalence + fault injection")
 CLAIMED["C19"] = dict(cat="exploration",
@@ -69,7 +69,7 @@ CLAIMED["C17"] = dict(cat="exploration",
    ref="5 C17", note="Packs mixing blob types are outside the statement's domain: deviations there are counted, not flagged. The *_checked loaders are not covered.",
    tech="deterministic simulation: reference map model vs real parallel index loader under seeded arrival orders and read faults")
 CLAIMED["C06"] = dict(cat="exploration",
-   text="Seeded simulation of the chunk iterator (through the verif hook) over every accepted parameter set (rabin avg 2^0..2^20 with min/max at and around all boundaries, seeded irreducible polynomials; fixed sizes incl. primes) x streams (random, zeros, periodic, text, boundary-dense by solving for fingerprint zeros, targeted at min+-1 / min+63..65 / max-1) x reader behaviours (whole, 1-byte, capped, seeded short reads, Interrupted bursts, sticky hard error, size-hint variants): concatenation equals the stream, size bounds, identical chunk lists across reader behaviours, every cut below max at the first position whose non-rolling GF(2) reference fingerprint of the last 64 bytes has its masked bits zero, restart and suffix locality, Err exactly on a hard read error, no panic; a quarter of the runs also archive streams through Repository::archive and read the content ids back.",
+   text="Seeded simulation of the chunk iterator (through the verif hook) over accepted parameter sets (rabin avg 2^12..2^20 with min from 4096 up to avg and max up to 8*avg at and around all boundaries, rarely smaller refused ones, seeded irreducible polynomials; fixed sizes incl. primes) x streams (random, zeros, periodic, text, boundary-dense by solving for fingerprint zeros, targeted at min+-1 / min+63..65 / max-1) x reader behaviours (whole, 1-byte, capped, seeded short reads, Interrupted bursts, sticky hard error, size-hint variants): concatenation equals the stream, size bounds, identical chunk lists across reader behaviours, every cut below max at the first position whose non-rolling GF(2) reference fingerprint of the last 64 bytes has its masked bits zero, restart and suffix locality, Err exactly on a hard read error, no panic; a quarter of the runs also archive streams through Repository::archive and read the content ids back.",
    ref="5 C06", note="Cut decisions at chunk lengths below 64 (no full window) and polynomials other than irreducible degree 53 are not judged. Built by a sub-agent, reviewed and integrated.",
    tech="deterministic simulation of the Read seam (fragmentation, EINTR, errors) against an independent reference fingerprint")
 CLAIMED["C14"] = dict(cat="exploration",
